@@ -218,6 +218,8 @@ def check_run(r, cfg):
 def _run(seed):
     rng = random.Random(seed)
     events = ["Probe"] + [e for e in ("PriceLimit", "Halt", "Mistake", "FShock") if rng.random() < 0.25]
+    if seed % 3 == 2:
+        events = events[1:] + events[:1]      # the probe is not always the first event registered for an occasion: every hook of a bucket must fire, not only the first
     r, cfg = sim.run_seed(seed, events=tuple(events), long_steps=(seed % 7 == 0))
     check_run(r, cfg)
     if seed % 4 == 1:
